@@ -791,8 +791,9 @@ impl Check for C18 {
         let ns = scenarios().len() as u64;
         let nb = sched_bounds(ctx.tier).len() as u64;
         let depth = history_depth(ctx.tier);
+        let npairs = pair_chunks(ctx.tier);
         Plan {
-            chunks: np + ns * nb + 2,
+            chunks: np + ns * nb + 2 + pair_chunks(ctx.tier) + FATIGUE.len() as u64,
             layer_of: Box::new(move |c| {
                 if c < np {
                     format!("histories to depth {}", depth)
@@ -800,8 +801,12 @@ impl Check for C18 {
                     format!("schedules, preemption bound {}", (c - np) % nb)
                 } else if c == np + ns * nb {
                     "Send + Sync probe".to_string()
-                } else {
+                } else if c == np + ns * nb + 1 {
                     "free-running first-call supplement (sampling)".to_string()
+                } else if c < np + ns * nb + 2 + npairs {
+                    "ordered pairs of compilations on one thread".to_string()
+                } else {
+                    "long sequences of compilations on one thread".to_string()
                 }
             }),
             description: format!(
@@ -939,6 +944,15 @@ impl Check for C18 {
             free_running_supplement(out);
             return;
         }
+        if chunk > np + scs.len() as u64 * nb + 1 {
+            let k = chunk - (np + scs.len() as u64 * nb + 2);
+            if k < pair_chunks(ctx.tier) {
+                pair_chunk(ctx.tier, k, out);
+            } else {
+                fatigue_chunk((k - pair_chunks(ctx.tier)) as usize, out);
+            }
+            return;
+        }
         // Send + Sync probe
         out.inc("states");
         out.inc("validated");
@@ -965,6 +979,225 @@ impl Check for C18 {
         }
         out.sample(J::obj(vec![("probe", J::s("fn f<T: Send + Sync>() {} f::<regexml::Regex>()"))]));
     }
+}
+
+// ---------------------------------------------------------------------------
+// ordered pairs of compilations
+
+/// (pattern, flags, dialect) triples that a cache with an incomplete key would
+/// confuse: the same text under other flags or the other dialect, the same flags
+/// with a related text. Invalid triples stay in: the error must be the same too.
+const PAIR_PATTERNS: [&str; 16] = ["a*A", "[a-c]", "^a", "a$", "a.c", "(a)\\1", "[k]", "a b", "\\p{Lu}", "\\p{IsLu}", "x+.", "b", "A", "\\$", "(?:a)", "a??"];
+const PAIR_FLAGS: [&str; 7] = ["", "i", "m", "s", "x", "q", "im"];
+const PAIR_INPUTS: [&str; 11] = ["a", "aA", "a\nb", "a b", "k", "K", "abc", "a$", "^a", "B", "xx"];
+
+fn n_triples() -> usize {
+    PAIR_PATTERNS.len() * PAIR_FLAGS.len() * 2
+}
+
+fn triple(t: usize) -> (&'static str, &'static str, bool) {
+    let xsd = t % 2 == 1;
+    let f = (t / 2) % PAIR_FLAGS.len();
+    let p = t / 2 / PAIR_FLAGS.len();
+    (PAIR_PATTERNS[p], PAIR_FLAGS[f], xsd)
+}
+
+/// Compile the triple and observe the whole API surface on every input.
+fn triple_surface(t: usize) -> String {
+    let (p, f, xsd) = triple(t);
+    match imp::compile(p, f, xsd) {
+        Out::Ok(re) => {
+            let mut v = vec!["Ok".to_string()];
+            for inp in PAIR_INPUTS {
+                v.push(imp::surface(&re, inp, "<$0|$1>").show());
+            }
+            v.join(" ;; ")
+        }
+        o => o.map(|_| ()).show(),
+    }
+}
+
+pub fn pair_solo_main(t: usize) {
+    println!("{}", crate::util::vis(&triple_surface(t)));
+}
+
+static PAIR_SOLO: std::sync::OnceLock<Vec<String>> = std::sync::OnceLock::new();
+
+/// Every triple compiled and observed alone in a pristine process.
+fn pair_solo() -> &'static Vec<String> {
+    PAIR_SOLO.get_or_init(|| {
+        let exe = std::env::current_exe().expect("current exe");
+        let n = n_triples();
+        let mut out = vec![String::new(); n];
+        let next = std::sync::atomic::AtomicUsize::new(0);
+        let slots: Vec<std::sync::Mutex<String>> = (0..n).map(|_| std::sync::Mutex::new(String::new())).collect();
+        std::thread::scope(|sc| {
+            for _ in 0..4 {
+                sc.spawn(|| loop {
+                    let t = next.fetch_add(1, std::sync::atomic::Ordering::SeqCst);
+                    if t >= n {
+                        break;
+                    }
+                    if let Ok(o) = std::process::Command::new(&exe).arg("c18pairsolo").arg(t.to_string()).output() {
+                        *slots[t].lock().unwrap() = crate::util::unvis(String::from_utf8_lossy(&o.stdout).trim());
+                    }
+                });
+            }
+        });
+        for (t, s) in slots.into_iter().enumerate() {
+            out[t] = s.into_inner().unwrap();
+        }
+        out
+    })
+}
+
+/// Quick: pairs that share the pattern text or share flags and dialect; thorough: all.
+fn pair_list(tier: Tier) -> Vec<(usize, usize)> {
+    let n = n_triples();
+    let mut v = vec![];
+    for a in 0..n {
+        for b in 0..n {
+            if a == b {
+                continue;
+            }
+            let (pa, fa, xa) = triple(a);
+            let (pb, fb, xb) = triple(b);
+            if tier == Tier::Thorough || pa == pb || (fa == fb && xa == xb) {
+                v.push((a, b));
+            }
+        }
+    }
+    v
+}
+
+const PAIRS_PER_CHUNK: usize = 512;
+
+fn pair_chunks(tier: Tier) -> u64 {
+    ((pair_list(tier).len() + PAIRS_PER_CHUNK - 1) / PAIRS_PER_CHUNK) as u64
+}
+
+/// For every ordered pair (A, B): on a fresh thread compile A and use it, then compile
+/// B; B's observations must be those of B compiled alone in a pristine process.
+fn pair_chunk(tier: Tier, k: u64, out: &mut ChunkOut) {
+    let list = pair_list(tier);
+    let solo = pair_solo();
+    let lo = k as usize * PAIRS_PER_CHUNK;
+    let hi = (lo + PAIRS_PER_CHUNK).min(list.len());
+    let mut distinct = BTreeSet::new();
+    for &(a, b) in &list[lo..hi] {
+        out.inc("states");
+        out.add("api_steps", 2 * (1 + 4 * PAIR_INPUTS.len() as u64));
+        let got = std::thread::spawn(move || {
+            let first = triple_surface(a);
+            let second = triple_surface(b);
+            (first, second)
+        })
+        .join()
+        .unwrap_or_else(|_| ("CRASH".to_string(), "CRASH".to_string()));
+        out.inc("validated");
+        distinct.insert(crate::util::fnv(&got.1));
+        for (which, t, obs) in [("first", a, &got.0), ("second", b, &got.1)] {
+            if solo[t].is_empty() {
+                out.inc("machinery_pair_solo_missing");
+                continue;
+            }
+            if *obs != solo[t] {
+                let (pa, fa, xa) = triple(a);
+                let (pb, fb, xb) = triple(b);
+                let mut case = Case::new("PAIR", &format!("{} then {}", pa, pb), &format!("{} then {}", fa, fb));
+                case.dialect = match (xa, xb) {
+                    (false, false) => "xpath then xpath",
+                    (false, true) => "xpath then xsd",
+                    (true, false) => "xsd then xpath",
+                    (true, true) => "xsd then xsd",
+                };
+                case.api = which.to_string();
+                let d = J::obj(vec![
+                    ("property", J::s("C18")),
+                    ("kind", J::s("CompilationDependsOnEarlierOne")),
+                    ("sequence", J::s(format!("on a fresh thread: compile({:?},{:?},{}) and use it; compile({:?},{:?},{}) and use it", pa, fa, if xa { "xsd" } else { "xpath" }, pb, fb, if xb { "xsd" } else { "xpath" }))),
+                    ("judged", J::s(which)),
+                    ("expected", J::s(&solo[t])),
+                    ("observed", J::s(obs)),
+                    ("note", J::s("expected = the same triple compiled and observed alone in a pristine process")),
+                ]);
+                out.failures.push(Failure { key: case.key("C18", "CompilationDependsOnEarlierOne"), detail: d });
+            }
+        }
+    }
+    out.add("nontrivial", distinct.len() as u64);
+    out.sample(J::obj(vec![("pairs", J::i(hi - lo)), ("first_pair", J::s(format!("{:?} then {:?}", triple(list[lo].0), triple(list[lo].1))))]));
+}
+
+// ---------------------------------------------------------------------------
+// long sequences of compilations
+
+/// Sequences run on one fresh thread before the probes: many failing compilations
+/// of one malformed pattern (state that only a successful parse cleans up), every
+/// category and many block escapes once (small fixed-size caches), many distinct
+/// valid patterns.
+const FATIGUE: [&str; 9] = ["(a", "((((a", "[a", "[a-[b", "a{2", "(?:(a)|", "\\p{L", "<every category and 40 block escapes>", "<every pair triple>"];
+const FATIGUE_REPEAT: usize = 600;
+
+fn fatigue_chunk(k: usize, out: &mut ChunkOut) {
+    let solo = pair_solo();
+    let what = FATIGUE[k];
+    let n = n_triples();
+    let got: Vec<String> = std::thread::spawn(move || {
+        if what.starts_with("<every category") {
+            for c in crate::refparse::CATS {
+                let _ = imp::compile(&format!("\\p{{{}}}", c), "", false);
+                let _ = imp::compile(&format!("[\\P{{{}}}a]", c), "", false);
+            }
+            for b in ["BasicLatin", "Latin-1Supplement", "Greek", "Cyrillic", "Hebrew", "Arabic", "Thai", "Hiragana", "Katakana", "Armenian", "Devanagari", "Bengali", "Tamil", "Georgian", "Ethiopic", "Cherokee", "Ogham", "Runic", "Khmer", "Mongolian", "GeneralPunctuation", "CurrencySymbols", "Arrows", "MathematicalOperators", "BoxDrawing", "Dingbats", "BraillePatterns", "CJKUnifiedIdeographs", "HangulSyllables", "PrivateUseArea", "Specials", "Tibetan", "Myanmar", "Lao", "Sinhala", "Malayalam", "Kannada", "Telugu", "Oriya", "Gujarati"] {
+                let _ = imp::compile(&format!("\\p{{Is{}}}", b), "", false);
+            }
+        } else if what.starts_with("<every pair") {
+            for t in 0..n {
+                let _ = triple_surface(t);
+            }
+        } else {
+            for _ in 0..FATIGUE_REPEAT {
+                let _ = imp::compile(what, "", false);
+                let _ = imp::compile(what, "x", true);
+            }
+        }
+        (0..n).map(triple_surface).collect()
+    })
+    .join()
+    .unwrap_or_default();
+    out.add("states", n as u64);
+    out.add("api_steps", (FATIGUE_REPEAT * 2 + n * (1 + 4 * PAIR_INPUTS.len())) as u64);
+    if got.len() != n {
+        let mut case = Case::new("FATIGUE", what, "");
+        case.api = "sequence".into();
+        out.fail("C18", &case, "CrashAfterSequence", "every triple observable", "the thread panicked", "");
+        return;
+    }
+    for t in 0..n {
+        out.inc("validated");
+        if solo[t].is_empty() {
+            out.inc("machinery_pair_solo_missing");
+            continue;
+        }
+        if got[t] != solo[t] {
+            let (p, f, x) = triple(t);
+            let mut case = Case::new("FATIGUE", &format!("{} then {}", what, p), f);
+            case.dialect = if x { "xsd" } else { "xpath" };
+            case.api = "sequence".into();
+            let d = J::obj(vec![
+                ("property", J::s("C18")),
+                ("kind", J::s("CompilationDependsOnEarlierOnes")),
+                ("sequence", J::s(format!("on a fresh thread: {} x {} (both dialects), then every pair triple in order; judged: compile({:?},{:?},{})", what, FATIGUE_REPEAT, p, f, if x { "xsd" } else { "xpath" }))),
+                ("expected", J::s(&solo[t])),
+                ("observed", J::s(&got[t])),
+                ("note", J::s("expected = the same triple compiled and observed alone in a pristine process")),
+            ]);
+            out.failures.push(Failure { key: case.key("C18", "CompilationDependsOnEarlierOnes"), detail: d });
+        }
+    }
+    out.inc("nontrivial");
+    out.sample(J::obj(vec![("sequence", J::s(what)), ("repeated", J::i(FATIGUE_REPEAT)), ("probes", J::i(n))]));
 }
 
 // ---------------------------------------------------------------------------
